@@ -25,6 +25,17 @@ Fixpoint tpl_ok (q : st) (t : string) (rest : list string) : bool :=
       end
   end.
 
+(* General form: the value's escaped bytes (esc s) are written at places that lie inside the body of a
+   string literal of the statement (the texts contain the quotes and whatever else the planner wraps
+   around the value: '%...%', '^(?:...)$').  Value-independent condition: the lexer, run over the texts
+   alone, is in the body of a literal (not behind a backslash) at every place. *)
+Definition in_body (q : st) : bool := match q with QStr _ => true | _ => false end.
+Fixpoint tplq_ok (q : st) (t : string) (rest : list string) : bool :=
+  match rest with
+  | [] => true
+  | t' :: rest' => in_body (after q t) && tplq_ok (QStr EmptyString) t' rest'
+  end.
+
 (* the tokens of an instance, with vs = the decoded value to put at each hole *)
 Fixpoint tpl_toks (q : st) (t : string) (rest : list string) (v : string) : list tok :=
   match rest with
